@@ -654,7 +654,7 @@ func (r *run) declareOnce(key, decl string) {
 		return
 	}
 	r.stash["decl:"+key] = true
-	r.solver.send(decl)
+	r.solver.DeclareRaw(decl)
 }
 
 func (r *run) newUUID() value {
